@@ -243,6 +243,8 @@ def check_step(tally, cfg, ref, cname, lock, adapt, before, inputs, out, after, 
             hs["age"], hs["v"] = 0, v1
         elif hs["age"] is not None:
             hs["age"] += 1
+            if cfg.get("refrac_lock") == "alternating":
+                hs["v"] = v1  # the lock is a per-call argument: a locked step holds the voltage of the step before it
 
 
 def trie_shard(cname, hpi, dt, refrac_t, lock, adapt, T):
@@ -251,7 +253,7 @@ def trie_shard(cname, hpi, dt, refrac_t, lock, adapt, T):
     n.train(adapt)
     ref = Ref(cname, hp, dt, refrac_t)
     letters, _ = alphabet(ref, hp)
-    cfg = {"class": cname, "hp": hpi, "dt": dt, "refrac_t": refrac_t, "refrac_lock": lock, "adapt": adapt}
+    cfg = {"class": cname, "hp": hpi, "dt": dt, "refrac_t": refrac_t, "refrac_lock": lock if lock != "alt" else "alternating", "adapt": adapt}
     # state layout: voltage / refractory time carry the batch dimension, the (batch-reduced) adaptation does not
     a0 = get_adapt(n, cname)
     if tuple(n.voltage.shape) != (1, 2) or tuple(n.refrac.shape) != (1, 2) or (a0 is not None and (a0.ndim != 2 or a0.shape[0] != 2)):
@@ -283,8 +285,8 @@ def trie_shard(cname, hpi, dt, refrac_t, lock, adapt, T):
                 # snapshot/restore validation: replay the whole history on a fresh neuron
                 n2, _ = make(cname, hpi, dt, refrac_t)
                 n2.train(adapt)
-                for x in inputs_hist:
-                    n2(torch.tensor([x], dtype=torch.float32), refrac_lock=lock)
+                for j, x in enumerate(inputs_hist):
+                    n2(torch.tensor([x], dtype=torch.float32), refrac_lock=(lock if lock != "alt" else (j % 2 == 0)))
                 same = torch.equal(n2.voltage, n.voltage) and torch.equal(n2.refrac, n.refrac)
                 if not same:
                     raise RuntimeError(f"snapshot/restore diverged from replay for {cfg} {hist}")
@@ -321,7 +323,8 @@ def trie_shard(cname, hpi, dt, refrac_t, lock, adapt, T):
             try:
                 xin = torch.tensor([xs], dtype=torch.float32)
                 g = Guard(xin)
-                out = n(xin, refrac_lock=lock)
+                lk = lock if lock != "alt" else (depth % 2 == 0)  # "alt": locked on even steps, free on odd ones (a per-call argument)
+                out = n(xin, refrac_lock=lk)
             except Exception as ex:
                 tally.violation(f"exception:{cname}:{type(ex).__name__}", {**cfg, "letters": hist + [lets[0]]}, repr(ex))
                 continue
@@ -335,7 +338,7 @@ def trie_shard(cname, hpi, dt, refrac_t, lock, adapt, T):
             case_fn = lambda: {**cfg, "letters": hist + [lets[0]], "inputs": inputs_hist + [xs]}
             if tuple(out.shape) != (1, 2) or out.dtype != torch.bool:
                 tally.violation(f"output-shape-dtype:{cname}", case_fn(), f"{tuple(out.shape)} {out.dtype}")
-            check_step(tally, cfg, ref, cname, lock, adapt, l0, xs, o, l1, hs2, case_fn)
+            check_step(tally, cfg, ref, cname, lk, adapt, l0, xs, o, l1, hs2, case_fn)
             # spike attribute == returned spikes
             attr = n.spike.reshape(-1).tolist()
             if attr != o:
@@ -405,6 +408,9 @@ def run(rep):
                             if hpi == 2 and (k not in (2.0, 3.0) or (quick and dt != 1.0)):
                                 continue
                             jobs.append((trie_shard, (cname, hpi, dt, k * dt, lock, adapt, T)))
+                            if lock and adapt and hpi == 0 and k == 3.0 and dt == 1.0:
+                                # the lock toggled from step to step inside one refractory period
+                                jobs.append((trie_shard, (cname, hpi, dt, k * dt, "alt", adapt, T)))
     tally = run_shards(jobs, seed=rep.seed)
     rep.tally.merge(tally)
     c = tally.counts
